@@ -51,7 +51,9 @@ def corpus(rng):
         "tsv-short": b"a\tb\n\n\t\t\t\t\t\n", "tsv-wide": b"a\tb\tc\td\te\tf\tg\th\n" * 3 + b"\n1\t2\t3\n", "xml": b"<DOC>\n<TEXT>\n<P>\n&amp; &lt; (BEGIN BRACKET) x\n</P>\n", "words": b"the " * 20000 + b"\n",
     }
     # WARC lengths for which header bytes + length + 4 wraps around 2^64 to 0..5 (and the same around 2^63 and 2^32)
-    for mod_, nm in ((1 << 64, "64"), (1 << 63, "63"), (1 << 32, "32")):
+    # (not around 2^32: such a length is merely a 4 GiB record that is missing - the tool allocates 4 GiB, reads to the end of the input and
+    # reports it, which is correct and takes as long as zero-filling 4 GiB takes)
+    for mod_, nm in ((1 << 64, "64"), (1 << 63, "63")):
         for t in range(0, 6):
             digits = len(str(mod_ - 60))
             hl = len(b"WARC/1.0\r\nContent-Length: \r\n\r\n") + digits
@@ -93,7 +95,7 @@ def run(ctx):
         picks = names if ctx.tier != "quick" else rng.sample(names, 9) + ["empty", "invalid-utf8", "bz2-trunc", "gz-empty"] + ([n for n in names if "warc" in n] if tool.startswith("warc") else []) + ([n for n in names if "b64" in n] if tool in ("docenc", "base64_number", "b64filter", "remove_invalid_utf8_base64") else []) + (["tabs", "tsv-short", "tsv-wide"] if any(a_ in ("-f", "-k") for a_ in args) else [])
         for nm in dict.fromkeys(picks):
             data = cps[nm]
-            st, out, err = pvlib.run_tool([ctx.bin(tool)] + args, data, env=pvlib.san_env(), timeout=12 if ctx.tier == "quick" else 40)
+            st, out, err = pvlib.run_tool([ctx.bin(tool)] + args, data, env=pvlib.san_env(), timeout=40)
             ctx.count("tool-corpus", 1, [(tool, tuple(args), nm)])
             if diagnosed_ok(st, err):
                 n_ok += 1
